@@ -276,3 +276,220 @@ def check_C11(ctx):
                                    "theorem": "correspondence bar-family/flags"}, found_input=False)
                 found = True
     report_broken_obligations(ctx, found)
+
+
+# ---------------------------------------------------------------- fill family (C07, C08)
+def parse_runs(line):
+    """'k i T c:w c:w | W n U b' -> (runs, W, U) or None for HANG etc."""
+    f = line.split()
+    if len(f) < 3 or f[2] != "T":
+        return None
+    runs = []
+    j = 3
+    while f[j] != "|":
+        c, w = f[j].split(":")
+        runs.append((int(c), int(w)))
+        j += 1
+    return runs, int(f[j + 2]), int(f[j + 4])
+
+
+def crw(req, avail):
+    return avail if (req < 1 or req > avail) else req
+
+
+def exact_cells(total, current, width):
+    """the property's reference: width*current/total rounded to nearest (halves up), exact integers"""
+    if total <= 0 or current <= 0:
+        return 0
+    if current >= total:
+        return width
+    return (2 * width * current + total) // (2 * total)
+
+
+def fill_cases(run):
+    """yields (k, header_tokens, [(input_tokens, obs_line)])"""
+    d = run["dir"]
+    impl = group_obs(read_lines(os.path.join(d, "impl.txt")))
+    model = group_obs(read_lines(os.path.join(d, "model.txt")))
+    cur = None
+    out = []
+    for l in read_lines(os.path.join(d, "cases.txt")):
+        f = l.split()
+        if not f:
+            continue
+        if f[0] in ("F", "S", "D"):
+            cur = {"k": int(f[1]), "hdr": f, "decs": [], "calls": [], "lines": [l]}
+            out.append(cur)
+        elif f[0] == "d":
+            cur["decs"].append(f); cur["lines"].append(l)
+        elif f[0] in ("c", "f"):
+            cur["calls"].append(f); cur["lines"].append(l)
+    for c in out:
+        c["impl"] = impl.get(c["k"], [])
+        c["model"] = model.get(c["k"], [])
+    return out
+
+
+def c07_monitor(case):
+    """termination, UTF-8, width bounds; returns (what, signature) or None"""
+    h = case["hdr"]
+    for i, obs in enumerate(case["impl"]):
+        if "HANG" in obs:
+            zero = h[0] == "F" and (h[4] == "0" or h[5] == "0" or h[6] == "0")
+            return ("drawing did not terminate: " + obs, "fill-nonterminating-zero-width-component" if zero else "fill-nonterminating")
+        pr = parse_runs(obs)
+        if pr is None:
+            return ("unparsable observation " + obs, "fill-unparsable")
+        runs, W, U = pr
+        if U != 1:
+            return ("row is not valid UTF-8: " + obs, "fill-invalid-utf8")
+        if any(c == -1 for c, _ in runs):
+            return ("row contains bytes of no component: " + obs, "fill-foreign-bytes")
+        if i >= len(case["calls"]):
+            continue
+        call = case["calls"][i]
+        if h[0] == "F":
+            avail, req = int(call[1]), int(call[2])
+            lbw, rbw = int(h[2]), int(h[3])
+            allot = crw(req, avail)
+            tips = [int(x) for x in h[9].split(",")]
+            if allot - lbw - rbw < 0:
+                if W != 0:
+                    return ("bar body drawn although the brackets do not fit: " + obs, "fill-drawn-when-too-narrow")
+            elif W != allot:
+                inner = allot - lbw - rbw
+                if max(tips) > inner and W > allot:
+                    return ("bar body is %d wide, allotted %d (tip wider than the inner width): %s" % (W, allot, obs),
+                            "fill-tip-wider-than-inner-width")
+                return ("bar body is %d wide but was allotted %d: %s" % (W, allot, obs), "fill-width-not-exact")
+        elif h[0] == "S":
+            avail, req = int(call[1]), int(call[2])
+            allot = crw(req, avail)
+            if W not in (0, allot):
+                return ("spinner is %d wide, allotted %d: %s" % (W, allot, obs), "spinner-width")
+        else:
+            tw = int(h[2])
+            if W > tw:
+                tipw = 0
+                if h[5] == "B":
+                    tipw = max(int(x) for x in h[13].split(","))
+                sig = "row-overflow"
+                return ("row is %d wide on a terminal of width %d: %s" % (W, tw, obs), sig)
+    return None
+
+
+def c08_monitor(case):
+    h = case["hdr"]
+    if h[0] != "F":
+        return None
+    lbw, rbw, fw, rw, pw = [int(x) for x in h[2:7]]
+    tips = [int(x) for x in h[9].split(",")]
+    prev = None
+    for i, obs in enumerate(case["impl"]):
+        pr = parse_runs(obs)
+        if pr is None or i >= len(case["calls"]):
+            continue
+        runs, W, U = pr
+        call = case["calls"][i]
+        avail, req, total, cur, ref, comp = [int(x) for x in call[1:7]]
+        inner = crw(req, avail) - lbw - rbw
+        if inner <= 0 or fw <= 0 or (ref != 0 and rw <= 0):
+            continue  # nothing to fill with: C07's business (termination), not proportionality
+        filled = sum(w for c, w in runs if c in (2, 3) or 100 <= c < 1000)
+        refilled = sum(w for c, w in runs if c == 2)
+        want = exact_cells(total, cur, inner)
+        tol = max([fw, rw] + tips)
+        big = inner * max(cur, 0) >= (1 << 64)
+        sig = "cells-product-overflow" if big else "cells"
+        if (cur <= 0 or total <= 0) and filled != 0:
+            return ("current<=0 or total<=0 but %d cells are filled: %s / %s" % (filled, " ".join(call), obs), sig + "-zero")
+        if total > 0 and cur >= total and filled < inner - tol:
+            return ("current reached total but only %d of %d cells are filled: %s / %s" % (filled, inner, " ".join(call), obs), sig + "-full")
+        if abs(filled - want) > tol + (1 if (inner * max(cur, 1) > (1 << 53) or total > (1 << 53)) else 0):
+            return ("filled %d cells, width*current/total rounds to %d (tolerance %d): %s / %s" % (filled, want, tol, " ".join(call), obs), sig + "-nearest")
+        if refilled > filled:
+            return ("refill segment %d exceeds filled segment %d: %s" % (refilled, filled, obs), "refill-exceeds")
+        key = (avail, req, total)
+        if prev and prev[0] == key and len(set(tips)) == 1 and ref == 0 and prev[3] == 0:
+            if cur >= prev[1] and filled < prev[2] and not (comp and not int(h[7])):
+                return ("filled cells went from %d to %d while current went from %d to %d: %s" % (prev[2], filled, prev[1], cur, obs), sig + "-monotone")
+        prev = (key, cur, filled, ref)
+    return None
+
+
+def fill_check(ctx, monitor, n_quick, n_thorough, project, deps):
+    if not common_setup(ctx, deps):
+        return
+    found = False
+    runs = []
+    if ctx.replay:
+        rp = json.load(open(ctx.replay))
+        runs.append(ctx.run_family("fill", rp.get("n", 100), seed=rp.get("run_seed", ctx.seed)))
+    elif ctx.tier == "quick":
+        runs.append(ctx.run_family("fill", n_quick))
+    else:
+        for i in range(8):
+            runs.append(ctx.run_family("fill", n_thorough // 8, seed=ctx.seed * 1000 + i))
+    sigs = set()
+    for run in runs:
+        cases = fill_cases(run)
+        if run["rc"] != 0:
+            ctx.add_violation("implementation run failed: " + run["log"][-800:], "fill-run-failed",
+                              {"family": "fill", "run_seed": run["seed"], "n": run["n"], "log": run["log"][-3000:]})
+            found = True
+        for c in cases:
+            ctx.cov["evaluations"] += len(c["impl"])
+            ctx.cov["traces_validated_against_impl"] += len(c["impl"])
+            for o in c["impl"]:
+                pr = parse_runs(o)
+                if pr and len(pr[0]) >= 3:
+                    ctx.distinct((c["hdr"][0], tuple(x for x, _ in pr[0]), pr[1]))
+            if c["k"] < 3:
+                ctx.sample({"case": c["lines"], "impl": c["impl"]})
+            mon = monitor(c)
+            if mon and mon[1] not in sigs:
+                sigs.add(mon[1])
+                ctx.add_violation(mon[0], mon[1], {"family": "fill", "run_seed": run["seed"], "n": run["n"], "k": c["k"],
+                                                   "case": c["lines"], "impl": c["impl"], "model": c["model"]})
+                found = True
+        if not sigs:
+            mism = [c for c in cases if [project(x) for x in c["impl"]] != [project(x) for x in c["model"]]]
+            for c in mism[:2]:
+                ctx.add_violation("rendered output differs from the model (correspondence broken); no monitor fails on it",
+                                  "fill-mismatch", {"family": "fill", "run_seed": run["seed"], "n": run["n"], "k": c["k"],
+                                                    "case": c["lines"], "impl": c["impl"], "model": c["model"],
+                                                    "theorem": "correspondence fill-family"}, found_input=False)
+                found = True
+    report_broken_obligations(ctx, found)
+
+
+FILL_DEPS = {"Base.v", "BaseProofs.v", "F64.v", "Percent.v", "Filler.v", "Decor.v", "FillerProofs.v", "PercentProofs.v", "DecorProofs.v"}
+
+
+@check
+def check_C07(ctx):
+    ctx.cov["rule"] = ("F = direct BarFiller.Fill calls (styles from ASCII / wide / multi-rune / empty / zero-width components, 1-3 tip "
+                       "frames, reverse, tip-on-complete; widths 0..2200; int64 boundary progress values); S = spinner fillers; "
+                       "D = whole rows of a manually refreshed container of width 1..70 with 0-4 decorators (W, extra space, indent, "
+                       "0-3 wrappers, ANSI colour, wide/combining/zero-width graphemes). evaluation = one Fill call / one frame; "
+                       "non-trivial = at least 3 class runs; distinct = (kind, class sequence, measured width)")
+    ctx.assumptions = ["display width is measured with go-runewidth on the ANSI-stripped row (RUNEWIDTH_EASTASIAN=0)",
+                       "user decorators are assumed to report their true width (built-in ones are proved to)"]
+    fill_check(ctx, c07_monitor, 2500, 200000, lambda l: l, FILL_DEPS | {"Props/C07.v"})
+
+
+def c08_project(line):
+    pr = parse_runs(line)
+    if pr is None:
+        return line
+    f = line.split()
+    return " ".join(f[:2]) + " " + " ".join("%d:%d" % (c, w) for c, w in pr[0] if c in (2, 3, 4, 5) or 100 <= c < 1000)
+
+
+@check
+def check_C08(ctx):
+    ctx.cov["rule"] = ("same generator as C07; the monitor classifies cells by rune and compares the filled part with "
+                       "width*current/total computed exactly; evaluation = one Fill call; non-trivial = at least 3 class runs")
+    ctx.assumptions = ["'to within one rune': tolerance = widest of filler, refiller, tip frames",
+                       "math.Round on the float64 quotient may differ from exact rounding by one cell only when width*current > 2^53"]
+    fill_check(ctx, c08_monitor, 2500, 200000, c08_project, FILL_DEPS | {"Props/C08.v"})
